@@ -14,6 +14,8 @@
 //   prog   threads separated by '_', operations by '.'
 //            sW submit waiter W     k wake_one     a wake_all     cWR cancel round R of waiter W
 //            u  store a new (never used before) value into the futex word (atomic_value().store)
+//            tWR wait until the cancellation token of round R of waiter W exists
+//            hE  hold executor E: queue a function that blocks its worker until rE (backlog), return once it runs
 //            vWR set the future of round R of waiter W     wG / pG see park below
 //
 // events (L1 observables): wait / susp / res / done / spurious (coroutine side), call / ret (operations),
@@ -23,7 +25,9 @@
 #include <babylon/executor.h>
 #include <babylon/future.h>
 
+#include <stdlib.h>
 #include <string.h>
+#include <new>
 #include <unistd.h>
 
 #include <string>
@@ -62,7 +66,7 @@ using CCancellation = ::babylon::coroutine::BasicCancellable::Cancellation;
 constexpr uint64_t FVAL = 7;
 constexpr uint64_t FNEVER = 9999;
 
-constexpr int MAXW = 4, MAXR = 3;
+constexpr int MAXW = 6, MAXR = 3;
 
 thread_local int tl_ticket = 0;         // ticket of the executor run this thread is inside
 thread_local int tl_ops[16];            // stack of operation ids in progress on this thread
@@ -340,6 +344,21 @@ void run_op(Ctx* c, const Op& op) {
       s.ret("setv", 0, 0, v);
       break;
     }
+    case 't':
+      for (int spin = 0; !c->has_tok[op.w][op.r] && !c->over[op.w][op.r] && spin < 2000; spin++) ::usleep(50);
+      break;
+    case 'h': {
+      int g = 4 + op.w;
+      c->ex[op.w].invoke([g] {
+        g_parked[g] = 1;
+        for (int spin = 0; !g_released[g] && spin < 4000; spin++) ::usleep(50);
+      });
+      for (int spin = 0; !g_parked[g] && spin < 2000; spin++) ::usleep(50);
+      break;
+    }
+    case 'r':
+      g_released[4 + op.w] = 1;
+      break;
     case 'w':
       for (int spin = 0; !g_parked[op.w] && !g_released[op.w] && spin < 2000; spin++) ::usleep(50);
       break;
@@ -459,6 +478,34 @@ struct Reg {
 } reg;
 
 } // namespace
+
+// Freed memory is overwritten with a pattern (sized header in front of every block), so that a read of a destroyed
+// coroutine frame yields the same non-zero garbage in every execution instead of whatever the allocator left there.
+namespace {
+constexpr size_t HDR = 16;
+NOINSTR void* poison_new(size_t n) {
+  char* p = (char*)::malloc(n + HDR);
+  if (p == nullptr) ::abort();
+  *(size_t*)p = n;
+  return p + HDR;
+}
+NOINSTR void poison_delete(void* q) noexcept {
+  if (q == nullptr) return;
+  char* p = (char*)q - HDR;
+  ::memset(q, 0xCB, *(size_t*)p);
+  ::free(p);
+}
+} // namespace
+void* operator new(size_t n) { return poison_new(n); }
+void* operator new[](size_t n) { return poison_new(n); }
+void* operator new(size_t n, const std::nothrow_t&) noexcept { return poison_new(n); }
+void* operator new[](size_t n, const std::nothrow_t&) noexcept { return poison_new(n); }
+void operator delete(void* p) noexcept { poison_delete(p); }
+void operator delete[](void* p) noexcept { poison_delete(p); }
+void operator delete(void* p, size_t) noexcept { poison_delete(p); }
+void operator delete[](void* p, size_t) noexcept { poison_delete(p); }
+void operator delete(void* p, const std::nothrow_t&) noexcept { poison_delete(p); }
+void operator delete[](void* p, const std::nothrow_t&) noexcept { poison_delete(p); }
 
 // -finstrument-functions seam (no babylon source change): the return of IdAllocator<uint32_t>::deallocate,
 // i.e. the moment DepositBox::finish_released has made the slot reusable, is a schedule point.  Without it the
